@@ -63,15 +63,25 @@ func (e *pevents) TargetSucceeded(l *label.Label, _ bool)     { e.add("succeeded
 func (e *pevents) RunDone(err error)                          { e.add("rundone", nil, err) }
 func (e *pevents) FileChanged(*label.Label)                   {}
 
-func renderBuild(g *graph) string {
+// equivalent spellings of the label of target l of the root package: relative, absolute, absolute with redundant
+// slashes (label.Parse accepts all of them and normalises them to //:t<l>)
+func spell(rg *rng, l int) string {
+	return []string{":t%d", "//:t%d", "///:t%d", "////:t%d"}[rg.below(4)]
+}
+
+func renderBuild(g *graph, rg *rng) string {
 	var b strings.Builder
-	for l := 0; l < g.n; l++ {
+	for l := g.n - 1; l >= 0; l-- { // highest label first, so that most dependencies are already defined as objects
 		if !g.known[l] {
 			continue // an unknown target is simply not defined
 		}
 		var ds []string
 		for _, d := range g.deps[l] {
-			ds = append(ds, fmt.Sprintf("\":t%d\"", d))
+			if rg.below(5) == 0 && g.known[d] && d > l {
+				ds = append(ds, fmt.Sprintf("t%d", d)) // a target object (defined earlier in the file)
+			} else {
+				ds = append(ds, "\""+fmt.Sprintf(spell(rg, d), d)+"\"")
+			}
 		}
 		fmt.Fprintf(&b, "@target(deps=[%s])\ndef t%d():\n    print(\"ran t%d\")\n", strings.Join(ds, ", "), l, l)
 		if !g.body[l] {
@@ -150,7 +160,7 @@ func childProject(seed uint64, n, maxNodes int, fixed string) int {
 		root := filepath.Join(base, "p"+strconv.Itoa(i))
 		os.MkdirAll(root, 0o755)
 		os.WriteFile(filepath.Join(root, ".dawnconfig"), nil, 0o644)
-		os.WriteFile(filepath.Join(root, "BUILD.dawn"), []byte(renderBuild(g)), 0o644)
+		os.WriteFile(filepath.Join(root, "BUILD.dawn"), []byte(renderBuild(g, rg)), 0o644)
 		evs := &pevents{}
 		proj, err := dawn.Load(root, &dawn.LoadOptions{Events: evs})
 		if err != nil {
